@@ -315,7 +315,7 @@ if validate_rfc3339:
 
 @_checks_drafts(
     name="regex",
-    raises=(re.error, OverflowError, RecursionError),
+    raises=(re.error, OverflowError, RecursionError, ValueError),
 )
 def is_regex(instance):
     if not isinstance(instance, str):
